@@ -1507,4 +1507,26 @@ func TestVerifBoundedC06(t *testing.T) {
 		}
 		c06Bounded(line)
 	}
+	// last, because registrations cannot be undone: the wrappers are recognised before the registry is consulted,
+	// so registering the TYPES of Safe()/Unsafe() themselves changes nothing (it used to end in unbounded recursion)
+	RegisterSafeType(reflect.TypeOf(Safe(0)))
+	RegisterSafeType(reflect.TypeOf(Unsafe(0)))
+	regCases := 0
+	for _, c := range []struct {
+		call string
+		arg  interface{}
+		want string
+	}{
+		{`Sprintf("a%vb", Safe(1))`, Safe(1), "a1b"},
+		{`Sprintf("a%vb", Unsafe(1))`, Unsafe(1), "a" + vS + "1" + vE + "b"},
+		{`Sprintf("a%vb", []interface{}{Unsafe(Safe(1))})`, []interface{}{Unsafe(Safe(1))}, "a[" + vS + "1" + vE + "]b"},
+		{`Sprintf("a%vb", Safe(Unsafe("x")))`, Safe(Unsafe("x")), "axb"},
+	} {
+		regCases++
+		if got := string(Sprintf("a%vb", c.arg)); got != c.want {
+			h.fail(&h.out, "RegisterSafeType(reflect.TypeOf(Safe(0))); RegisterSafeType(reflect.TypeOf(Unsafe(0))); "+c.call, got, "registering the wrapper types themselves must not change how wrappers are treated: want "+strconv.Quote(c.want))
+		}
+	}
+	c06Bounded(map[string]interface{}{"property": "C06", "law": "with the types of Safe()/Unsafe() themselves registered as safe types, wrappers are still unwrapped and the outermost decides (no recursion)",
+		"cases": regCases, "nontrivial": regCases, "nontrivial_rule": "all", "bound": "4 calls, run last in the process", "exhaustive": true})
 }
